@@ -1,6 +1,7 @@
 SPECIFICATION Spec
 CONSTANTS HourDoesNotZeroMinutes <- On
           DayMoveKeepsHour <- Off
+          Hour24SoughtLiterally <- Off
           Week53Everywhere <- Off
           AllowKnownClass <- Off
           Shapes = 0
